@@ -103,10 +103,12 @@ theorem fields_ok {addr fpv : Bool} {P : Program} {sp : Nat} {pv : Bool} {lv : N
       obtain ⟨fskip, fkeep⟩ := field_ok (o := o) (co := co) (addr := addr) (fpv := fpv) (P := P) (sp := sp + 1) (pv := pv) (i := i) (off := off)
         hlv hfld.2 hC.1.1 hnz hq (by rw [← htyp]; exact hK.1)
         (hIH v hmem t hS.1 hC.1.1)
-        (fun e w ht hv => by
+        (fun e w ht hv hst => by
           subst ht hv
           simp only [Sub] at hS
           simp only [Conf] at hC
+          have hncb : cbPtr e = false := by cases e <;> first | rfl | (simp [stringable] at hst)
+          rw [hncb, Bool.or_false] at hS
           exact hIH2 w hmem e hS.1 hC.1.1)
         fr hfr hget s (by omega) pc c b (hfc ▸ hat.left)
       rw [hfc] at fskip fkeep
